@@ -249,16 +249,19 @@ class LDMService:
             tuple of ordered tuples of data objects.
         """
 
-        def build_key(item):
-            return tuple(
-                Utils.get_nested(item, Utils.find_attribute(order.attribute, item))
-                for order in orders
+        # one stable pass per attribute, least significant first, each in its own direction
+        ordered = tuple(search_results)
+        for order in reversed(orders):
+            ordered = tuple(
+                sorted(
+                    ordered,
+                    key=lambda item, attribute=order.attribute: Utils.get_nested(
+                        item, Utils.find_attribute(attribute, item)
+                    ),
+                    reverse=order.ordering_direction == OrderingDirection.DESCENDING,
+                )
             )
-
-        reverse = any(
-            order.ordering_direction == OrderingDirection.DESCENDING for order in orders
-        )
-        return (tuple(sorted(search_results, key=build_key, reverse=reverse)),)
+        return (ordered,)
 
     def add_provider_data(self, data: AddDataProviderReq) -> int | None:
         """
